@@ -45,3 +45,117 @@ contract(f"{CT}:CAMTransmissionManagement._get_path_history", props=["C11"], bou
          callsite_ensures=[],
          ensures={"every_point_inside_the_delta_constraints": "all_points_ok(result)"},
          trusted=["BOUNDED: _get_path_history is explored for path histories of 1 and 2 points (each point is processed independently by the loop body)"])
+
+# ---------------------------------------------------------------- reception: absolute generation time handed upwards
+CR = "flexstack.facilities.ca_basic_service.cam_reception_management:CAMReceptionManagement"
+
+
+def setup_cam_rx(e):
+    _setup10(e)
+    from pyvc.shapes import Maker
+    from pyvc.values import RaiseV, TupleV, NONE
+
+    def h_rx_coder(e2, st, o, name, args, kwargs):
+        e2.used_assumptions.add("CAM coder on reception: decode returns some CAM dictionary or raises")
+        if name == "decode":
+            s1, d = Maker(e2).make(st, T.dict(_open=True, header=T.dict(_open=True, stationId=T.int(0, 2 ** 32 - 1)),
+                                              cam=T.dict(_open=True, generationDeltaTime=T.int(0, 65535))), e2.fresh("decoded_cam"))
+            yield s1.ghost_append("decoded", TupleV([args[0], d])), d
+            yield st, RaiseV(e2.exc("Exception", "decode error"))
+        else:
+            raise NotImplementedError(name)
+
+    def h_cam_ldm(e2, st, o, name, args, kwargs):
+        yield st.ghost_append("ldm_adds", args[0]), NONE
+    e.opaque_handlers.update({"cam_rx_coder": h_rx_coder, "cam_rx_ldm": h_cam_ldm})
+    orig = e.opaque_attr
+
+    def attr(st, o, name):
+        if o.typ == "btp_indication" and name == "data":
+            return o.data["data"]
+        return orig(st, o, name)
+    e.opaque_attr = attr
+
+
+contract(f"{CR}.reception_callback", props=["C11", "C04"], mode="int", spec_module="spec_msg", float_as_real=True, frame_check=False,
+         engine_setup=setup_cam_rx, requires=["now() >= 1072915200"],
+         shapes={"self": T.obj(CR, logging=T.opaque("logger"), cam_coder=T.opaque("cam_rx_coder"), btp_router=T.opaque("btp_router"),
+                               ca_basic_service_ldm=T.opt(T.opaque("cam_rx_ldm")), _application_callbacks=T.oneof(T.list(), T.list(T.callback))),
+                 "btp_indication": T.opaque("btp_indication", data=T.bytes(0, 2000))},
+         inline=[f"{CT}:GenerationDeltaTime.as_timestamp_in_certain_point"],
+         ensures={"an_undecodable_payload_is_discarded_without_raising": "implies(len(ghost('decoded')) == 0, len(ghost('ldm_adds')) == 0 and len(ghost('callbacks')) == 0)",
+                  "absolute_generation_time_reconstructed_against_the_reception_instant_in_ms": "implies(len(ghost('decoded')) == 1, ghost('decoded')[0][1]['utc_timestamp'] == reconstructed(ghost('decoded')[0][1]['cam']['generationDeltaTime'], int(now() * 1000)))",
+                  "stored_and_handed_to_every_application_callback": "implies(len(ghost('decoded')) == 1, (self.ca_basic_service_ldm is None or (len(ghost('ldm_adds')) == 1 and ghost('ldm_adds')[0] is ghost('decoded')[0][1])) and len(ghost('callbacks')) == len(self._application_callbacks))"},
+         cover=["len(ghost('decoded')) == 1"])
+
+# ---------------------------------------------------------------- emergency-vehicle DENM: event position from the report
+EV = "flexstack.applications.road_hazard_signalling_service.emergency_vehicle_approaching_service:EmergencyVehicleApproachingService"
+
+
+def setup_eva(e):
+    _setup10(e)
+    from pyvc.values import NONE, TupleV, Opaque
+
+    def h_dtm(e2, st, o, name, args, kwargs):
+        if name == "request_denm_sending":
+            yield st.ghost_append("den_requests", args[0]), NONE
+        else:
+            raise NotImplementedError(name)
+    e.opaque_handlers["den_tx"] = h_dtm
+    orig = e.opaque_attr
+
+    def attr(st, o, name):
+        if o.typ == "den_service" and name == "denm_transmission_management":
+            return Opaque("den_tx", o.ident)
+        return orig(st, o, name)
+    e.opaque_attr = attr
+
+
+EVPOS2 = T.dict(latitude=T.int(-900000000, 900000001), longitude=T.int(-1800000000, 1800000001),
+                positionConfidenceEllipse=T.opaque("object"), altitude=T.dict(altitudeValue=T.int(-100000, 800001), altitudeConfidence=T.opaque("object")))
+EVTPV = T.dict(lat=(T.float(-90, 90), "optional"), lon=(T.float(-180, 180), "optional"), altHAE=(T.float(-20000, 20000), "optional"))
+contract(f"{EV}.trigger_denm_sending", props=["C11", "C17"], mode="int", spec_module="spec_msg", float_as_real=True, frame_check=False, engine_setup=setup_eva,
+         shapes={"self": T.obj(EV, den_service=T.opaque("den_service"), denm_duration=T.int(0, 60000), denm_interval=T.int(1, 10000),
+                               priority_level=T.opaque("object"), detection_time=T.int(0), event_position=EVPOS2), "tpv": EVTPV},
+         assumed=False,
+         ensures={"event_position_is_the_reported_position": "implies('lat' in tpv, self.event_position['latitude'] == int(tpv['lat'] * 10000000)) and implies('lon' in tpv, self.event_position['longitude'] == int(tpv['lon'] * 10000000))",
+                  "absent_fields_keep_the_previous_value": "implies('lat' not in tpv, self.event_position['latitude'] == old(self.event_position['latitude'])) and implies('lon' not in tpv, self.event_position['longitude'] == old(self.event_position['longitude']))",
+                  "altitude_inside_altitude_value_and_within_one_centimetre": "implies('altHAE' in tpv, -100000 <= self.event_position['altitude']['altitudeValue'] <= 800000 and implies(-1000 < tpv['altHAE'] < 8000, self.event_position['altitude']['altitudeValue'] == int(tpv['altHAE'] * 100)))",
+                  "one_request_to_the_den_service": "len(ghost('den_requests')) == 1"})
+
+# ---------------------------------------------------------------- VAM reception: time reconstruction and hand-over to clustering
+VR = "flexstack.facilities.vru_awareness_service.vam_reception_management:VAMReceptionManagement"
+
+
+def setup_vam_rx(e):
+    setup_cam_rx(e)
+    from pyvc.shapes import Maker
+    from pyvc.values import RaiseV, TupleV, NONE
+
+    def h_rx_coder(e2, st, o, name, args, kwargs):
+        if name == "decode":
+            s1, d = Maker(e2).make(st, T.dict(_open=True, header=T.dict(_open=True, stationId=T.int(0, 2 ** 32 - 1)),
+                                              vam=T.dict(_open=True, generationDeltaTime=T.int(0, 65535))), e2.fresh("decoded_vam"))
+            yield s1.ghost_append("decoded", TupleV([args[0], d])), d
+            yield st, RaiseV(e2.exc("Exception", "decode error"))
+        else:
+            raise NotImplementedError(name)
+
+    def h_cluster(e2, st, o, name, args, kwargs):
+        if name == "on_received_vam":
+            yield st.ghost_append("cluster_inputs", args[0]), NONE
+        else:
+            raise NotImplementedError(name)
+    e.opaque_handlers.update({"vam_rx_coder": h_rx_coder, "cluster_mgr": h_cluster})
+
+
+contract(f"{VR}.reception_callback", props=["C11", "C18"], mode="int", spec_module="spec_msg", float_as_real=True, frame_check=False,
+         engine_setup=setup_vam_rx, requires=["now() >= 1072915200"], may_raise=["Exception"],
+         shapes={"self": T.obj(VR, logging=T.opaque("logger"), vam_coder=T.opaque("vam_rx_coder"), btp_router=T.opaque("btp_router"),
+                               vru_basic_service_ldm=T.opt(T.opaque("cam_rx_ldm")), clustering_manager=T.opt(T.opaque("cluster_mgr"))),
+                 "btp_indication": T.opaque("btp_indication", data=T.bytes(0, 2000))},
+         inline=[f"{CT}:GenerationDeltaTime.as_timestamp_in_certain_point"],
+         ensures={"absolute_generation_time_reconstructed_against_the_reception_instant_in_ms": "implies(len(ghost('decoded')) == 1, ghost('decoded')[0][1]['utc_timestamp'] == reconstructed(ghost('decoded')[0][1]['vam']['generationDeltaTime'], int(now() * 1000)))",
+                  "every_decoded_vam_reaches_the_clustering_manager_whatever_the_ldm_configuration": "implies(len(ghost('decoded')) == 1 and self.clustering_manager is not None, len(ghost('cluster_inputs')) == 1 and ghost('cluster_inputs')[0] is ghost('decoded')[0][1])",
+                  "and_the_ldm_when_there_is_one": "implies(len(ghost('decoded')) == 1 and self.vru_basic_service_ldm is not None, len(ghost('ldm_adds')) == 1 and ghost('ldm_adds')[0] is ghost('decoded')[0][1])"},
+         cover=["len(ghost('cluster_inputs')) == 1"])
